@@ -1,26 +1,39 @@
 #!/bin/bash
-# extract the Coq model to OCaml and build the driver co-process
+# Extract the Coq model to OCaml and build the driver co-process.
+# Every coq/Extract/*.v is compiled from build/extract (its "Extraction "x.ml""
+# output lands there); every driver/*.ml is linked: conv.ml first, then the
+# h_*.ml handler modules, handlers.ml, driver.ml last.
 set -e
-mkdir -p /verif/build/extract /verif/build/driver
-cd /verif/build/extract
-# re-extract only when a model/spec .vo or Extract.v is newer than the extracted file
-need=0
-[ -f fitmodel.ml ] || need=1
-if [ $need = 0 ]; then
-  if [ -n "$(find /verif/coq/Model /verif/coq/Spec /verif/coq/Gen /verif/coq/Extract -name '*.v' -newer fitmodel.ml | head -1)" ]; then need=1; fi
-fi
-if [ $need = 1 ]; then
-  timeout 600 coqc -Q /verif/coq FitV /verif/coq/Extract/Extract.v > extract.log 2>&1 || { cat extract.log; exit 1; }
-fi
-cd /verif/build/driver
+R=${VERIF_ROOT:-/verif}
+mkdir -p $R/build/extract $R/build/driver
+cd $R/build/extract
+for v in $R/coq/Extract/*.v; do
+  base=$(basename $v .v)
+  stamp=.$base.stamp
+  need=0
+  [ -f $stamp ] || need=1
+  if [ $need = 0 ]; then
+    if [ -n "$(find $R/coq/Model $R/coq/Spec $R/coq/Gen $v -name '*.v' -newer $stamp | head -1)" ]; then need=1; fi
+  fi
+  if [ $need = 1 ]; then
+    timeout 900 coqc -Q $R/coq FitV $v > $base.log 2>&1 || { cat $base.log; exit 1; }
+    touch $stamp
+  fi
+done
+cd $R/build/driver
 need=0
 [ -x vdriver ] || need=1
-for f in /verif/build/extract/fitmodel.ml /verif/driver/*.ml; do
+for f in $R/build/extract/*.ml $R/driver/*.ml; do
   [ "$f" -nt vdriver ] && need=1
 done
 if [ $need = 1 ]; then
-  cp /verif/build/extract/fitmodel.ml /verif/build/extract/fitmodel.mli /verif/driver/*.ml .
-  ocamlfind ocamlopt -O3 -w -a -package str fitmodel.mli fitmodel.ml conv.ml handlers.ml driver.ml -o vdriver.new 2>build.log || \
-  ocamlfind ocamlopt -w -a fitmodel.mli fitmodel.ml conv.ml handlers.ml driver.ml -o vdriver.new 2>build.log || { cat build.log; exit 1; }
+  rm -f *.ml *.mli *.cm* *.o
+  cp $R/build/extract/*.ml $R/build/extract/*.mli $R/driver/*.ml .
+  mods=""
+  for f in $R/build/extract/*.ml; do b=$(basename $f .ml); mods="$mods $b.mli $b.ml"; done
+  hs=""
+  for f in $R/driver/h_*.ml; do [ -f "$f" ] && hs="$hs $(basename $f)"; done
+  ocamlfind ocamlopt -O3 -w -a -package str $mods conv.ml $hs handlers.ml driver.ml -o vdriver.new 2>build.log || \
+  ocamlfind ocamlopt -w -a $mods conv.ml $hs handlers.ml driver.ml -o vdriver.new 2>build.log || { cat build.log; exit 1; }
   mv vdriver.new vdriver
 fi
